@@ -70,6 +70,48 @@ def clause3(P, res):
         res.violated(rid, "refill-bodies", f"expected the sync and the async refill body, found {len(bodies)}")
 
 
+def clause4(P, res):
+    rid = "C17-4"
+    res.rule(rid, "a batch is accepted together with its cursor, and no shard is skipped: (a) in IterStream::poll_next every path that appends a refill result to the "
+                  "buffer also stores the cursor that result came with (otherwise the same batch is produced again); (b) iterators and snapshots take shard locks with "
+                  "the blocking read()/read_async()/write — never try_read/try_write, whose failure would silently pass over a shard's entries")
+    b = P.body("fibre_cache::<iter::IterStream<K, V, H> as futures_core::stream::Stream>::poll_next")
+    if b is None:
+        res.unclassified(rid, "poll_next", "IterStream::poll_next not found")
+    else:
+        def appends(bb):
+            return [e for e in bb.calls() if e.method in ("extend", "append", "push_back") and e.args and bb.path_of_operand(e.args[0]).endswith(".buffer")]
+        ext = appends(b)
+        for e in b.calls():      # a helper of the same module that does the appending (refactors fold the two arms into one function)
+            t = P.body(e.callee_resolved)
+            if t is not None and re.search(r"^fibre_cache::<?iter::", t.id) and appends(t):
+                ext.append(e)
+        cur = [e for e in b.events if e.kind == "assign" and e.data["p"][1] and b.path_of_place(e.data["p"]).endswith(".cursor")]
+        if not ext or not cur:
+            res.unclassified(rid, "poll_next", f"expected buffer.extend and cursor stores, found {len(ext)}/{len(cur)}", where=f"{b.file}:{b.line}")
+        else:
+            bad = [e for e in ext if not b.dominated_by_any(e.pos, {x.pos for x in cur})]
+            if bad:
+                res.violated(rid, "poll_next", f"the refill result is appended to the buffer at {bad[0].loc} on a path that never stored its cursor: the next refill restarts from the "
+                             "old cursor and yields the same entries again", where=bad[0].loc)
+            else:
+                res.holds(rid, "poll_next", f"{len(ext)} batch acceptances, each after a cursor store", where=ext[0].loc, obligations=len(ext))
+    n = 0
+    for bb in P.bodies.values():
+        if not re.search(r"^fibre_cache::<?(iter|snapshot)::", bb.id):
+            continue
+        for e in bb.calls():
+            if "HybridRwLock" in e.callee and e.method in ("read", "write", "read_async", "write_async", "try_read", "try_write"):
+                n += 1
+                if e.method.startswith("try_"):
+                    res.violated(rid, f"{bb.id}:{e.method}", f"{e.method} at {e.loc} in iteration/snapshot code: when the shard is momentarily write-locked its entries are skipped "
+                                 "(never enumerated, never exported)", where=e.loc)
+    if n < 4:
+        res.violated(rid, "shard-lock-sites", f"expected >= 4 shard lock acquisitions in iter.rs / snapshot.rs, found {n}")
+    else:
+        res.holds(rid, "shard-lock-sites", f"{n} shard lock acquisitions in iteration/snapshot code, all blocking", where="cache/src/iter.rs", obligations=n)
+
+
 def run(P, ctx):
     res = Result("C17")
     res.extra["explanation"] = ("Expiry gate on everything iterators and snapshots yield, and restore-is-an-insertion (cost accounted, policy informed, same shard index "
@@ -92,6 +134,7 @@ def run(P, ctx):
         else:
             res.unclassified("C17-1", bid, "no value source recognised")
     clause3(P, res)
+    clause4(P, res)
     rid = "C17-2"
     res.rule(rid, "restore is an insertion like any other: the snapshot-restore path accounts the restored cost in current_cost, announces every restored entry to "
                   "its shard's eviction policy, and places entries with the same shard-index function that lookups use")
